@@ -31,3 +31,21 @@ Theorem C11_measured_fit_is_rendered_fit :
   rendered_col rs false col (tok, zero_start1 (apply_decision f d)) <= W.
 Proof. exact measured_fit_is_rendered_fit. Qed.
 
+(* composed with the effect model of the wrapper: for ANY plan, a decided token ends at the column get_token_line_length gives for
+   the LAST decision taken for it *)
+From PasfmtVerif Require Import Proofs.MeasureApplyProofs.
+Theorem C11_any_plan_end_column_is_measure :
+  forall (rs : rsettings) (visits : list nat) (plan1 plan2 : list (nat * decision))
+    (l : list ftoken) (i : nat) (tok : token) (f : fmt) (d : decision) 
+    (col : N),
+  nth_error l i = Some (tok, f) ->
+  last_decision plan1 i = Some d ->
+  rs_measurable rs = true ->
+  exists p : ftoken,
+    nth_error (olf_effect rs false visits plan1 plan2 l) i = Some p /\
+    fst p = tok /\
+    (tok_measurable p = true ->
+     rendered_col rs false col p = token_line_length rs col d tok (f_sp f)).
+Proof. exact olf_effect_end_column. Qed.
+
+
